@@ -242,6 +242,20 @@ class VSpecFn:
         self.fn = fn
 
 
+class VGadFn:
+    """a function-valued parameter known only as a pure map literal -> CNF:  f(l) is the spec term gad(sid, l)"""
+
+    def __init__(self, sid):
+        self.sid = sid
+
+
+class VDom:
+    """[table[l] for l in clause] for a table of clause lists: kept symbolic (table array, table length, clause)"""
+
+    def __init__(self, arr, length, clause):
+        self.arr, self.length, self.clause = arr, length, clause
+
+
 class VUnbound:
     pass
 
@@ -480,6 +494,8 @@ class Engine:
             return VSeq(self.fresh(base, specs.CSeq))
         if ty == 'mclist':
             return VMList(self.fresh(base, specs.CSeq))
+        if ty == 'fn:gad':
+            return VGadFn(self.fresh(base + '_fid'))
         if ty == 'asg':
             return self.fresh(base, specs.Asg)
         if ty == 'molist':
@@ -641,6 +657,15 @@ class Engine:
                 self.run_top(rel, qual, node, c)
             except PathEnd:
                 pass
+            except (Unsupported, SpecError, PyExc, ReturnSig, BreakSig, ContinueSig):
+                raise
+            except (TypeError, AttributeError, IndexError, ValueError, KeyError, z3.Z3Exception) as e:
+                # the interpreter met values it has no model for (typically code that was edited into something the
+                # value model cannot represent, e.g. `list - list`): the function leaves the supported subset - never a
+                # crash, never a violation.  PYVC_STRICT=1 re-raises (used when developing contracts on the unchanged tree).
+                if os.environ.get('PYVC_STRICT'):
+                    raise
+                raise Unsupported('the engine cannot interpret the function ({}: {})'.format(type(e).__name__, str(e)[:120]))
         return self.obligations[n0:]
 
     def bind_params(self, node, c, rel, qual):
@@ -691,6 +716,7 @@ class Engine:
     def run_top(self, rel, qual, node, c):
         self.modinfo = self.repo.module(rel)
         self.created = {}
+        self.gadids = {}
         env = self.bind_params(node, c, rel, qual)
         for g, ty in c.get('ghost_params', {}).items():
             env[g] = self.fresh_of_type(g, ty)
@@ -703,6 +729,8 @@ class Engine:
                             src=self.cur_func.split('#')[0])]
         for k in self.yield_sites(self.frames[0]).values():
             env['_y{}'.format(k)] = z3.IntVal(0)
+        if c.get('yield_acc'):
+            env['_ys'] = VSeq(specs.cnil)            # ghost: the sequence of clauses yielded so far
         outcome = ('normal', None)
         try:
             self.exec_block(node.body, env)
@@ -717,6 +745,8 @@ class Engine:
         if outcome[0] == 'normal':
             self.exits['normal'] += 1
             post_env['result'] = outcome[1]
+            if c.get('yield_acc'):
+                post_env['result'] = env['_ys']        # a generator under `yield_acc`: its value is the sequence it yields
             for exc, cond in c.get('raises', {}).items():
                 if cond is None:
                     continue
@@ -777,6 +807,10 @@ class Engine:
         if isinstance(s, ast.Assign):
             v = self.eval(s.value, env)
             for t in s.targets:
+                if isinstance(t, ast.Name) and isinstance(v, VArr) and getattr(v, 'blank', False) \
+                        and self.frames[-1]['contract'].get('locals', {}).get(t.id) == 'ctab':
+                    v.arr = self.fresh('ctable', specs.CTab)       # declared: a table of clause lists
+                    v.blank = False
                 self.assign(t, v, env)
             return
         if isinstance(s, ast.AugAssign):
@@ -893,6 +927,13 @@ class Engine:
                 return                       # store into an unmodelled container (e.g. the header dict)
             if isinstance(base, VArr):
                 i = self.norm_index(idx, base.length, t)
+                if isinstance(v, VSeq) and v.term.sort() == specs.CSeq:
+                    if base.arr.sort().range() != specs.CSeq:
+                        if not (z3.is_const(base.arr) and base.arr.decl().kind() == z3.Z3_OP_UNINTERPRETED and getattr(base, 'blank', False)):
+                            raise Unsupported('clause list stored into an int table')
+                        base.arr = self.fresh('ctable', specs.CTab)      # a [None]*n table typed by its first store
+                    base.arr = z3.Store(base.arr, i, v.term)
+                    return
                 base.arr = z3.Store(base.arr, i, toz(v))
                 return
             if isinstance(base, VArr2) and base.present is not None and isinstance(v, VTuple) and not v.items:
@@ -949,7 +990,7 @@ class Engine:
                                 names.add(b.id)
                             elif isinstance(b, ast.Attribute):
                                 attrs.add(ast.unparse(b))
-            if isinstance(n, ast.Yield):
+            if isinstance(n, (ast.Yield, ast.YieldFrom)):
                 names.add('_y*')
             if isinstance(n, ast.Call) and isinstance(n.func, ast.Attribute) and \
                     n.func.attr in ('append', 'pop', 'insert', 'remove', 'sort', 'extend', 'add', 'update', 'reverse'):
@@ -1038,6 +1079,13 @@ class Engine:
         cands = [int(j) for j, h in rec.items() if h == hdr]
         if len(cands) == 1:
             return k, specs_.get(cands[0])
+        # same number of loops, same kinds and loop variables in the same order: only an iterable / a condition was
+        # edited (e.g. a range bound) - the invariant of the same ordinal still speaks about this loop
+        def shape(h):
+            return h.split(' in ', 1)[0] if h.startswith('for ') else 'while'
+        cur = fr['loop_hdr']
+        if len(cur) == len(rec) and all(shape(cur[i]) == shape(rec.get(str(i), '?')) for i in cur):
+            return k, specs_.get(k)
         raise Unsupported('the loop structure of the function changed (loop `{}` has no recorded counterpart)'.format(hdr[:60]))
 
     def havoc_loop(self, body, env, spec, extra_names=()):
@@ -1045,7 +1093,7 @@ class Engine:
         names |= set(extra_names)
         if '_y*' in names:
             names.discard('_y*')
-            names |= {k for k in env if k.startswith('_y') and k[2:].isdigit()}
+            names |= {k for k in env if k.startswith('_y') and (k[2:].isdigit() or k == '_ys')}
         havoced = set(names)
         for x in spec.get('modifies_objects', []):       # objects mutated through callee contracts
             o = self.spec_eval(x, env)
@@ -1224,6 +1272,8 @@ class Engine:
 
     def eval_iter(self, e, env):
         v = self.eval(e, env)
+        if isinstance(v, VObj):
+            v = self.call_method(v, '__iter__', [], {}, e)      # iteration over an object: its __iter__ (contract or inlined)
         if isinstance(v, VMList):
             return VSeq(v.term)
         return v
@@ -1242,8 +1292,18 @@ class Engine:
         fr = self.frames[-1]
         c = fr['contract']
         if isinstance(y, ast.YieldFrom):
+            v = self.eval(y.value, env)
+            if c.get('yield_acc') and isinstance(v, VSeq) and v.term.sort() == specs.CSeq:
+                env['_ys'] = VSeq(specs.capp(env['_ys'].term, v.term))
+                return
             raise Unsupported('yield from')
         v = self.eval(y.value, env)
+        if c.get('yield_acc'):
+            if not (isinstance(v, VSeq) and v.term.sort() == specs.ISeq):
+                raise Unsupported('yield of a non-clause into the clause accumulator')
+            env['_ys'] = VSeq(specs.csnoc(env['_ys'].term, v.term))
+            if c.get('yields') is None and not c.get('yields_at'):
+                return
         k = self.yield_sites(fr).get(id(y))
         specs_y = c.get('yields_at', {}).get(k, c.get('yields'))
         if specs_y is None:
@@ -1376,7 +1436,9 @@ class Engine:
             if a.items[0] is None:
                 # [None] * n : a table to be filled; entries are unconstrained ints until assigned (reads of
                 # unassigned slots are not modelled - stated assumption)
-                return VArr(z3.simplify(n), self.fresh('table', z3.ArraySort(z3.IntSort(), z3.IntSort())))
+                tb = VArr(z3.simplify(n), self.fresh('table', z3.ArraySort(z3.IntSort(), z3.IntSort())))
+                tb.blank = True
+                return tb
             return VArr(z3.simplify(n), z3.K(z3.IntSort(), toz(a.items[0])))
         if isinstance(a, VTuple) and isinstance(op, ast.Mult) and is_z3(b):
             return VOpaque('list repeated a symbolic number of times')
@@ -1588,10 +1650,11 @@ class Engine:
                 r = z3.If(ii == k, toz(base.items[k]), r)
             return r
         if isinstance(base, VArr):
+            wrap = (lambda r: VSeq(r)) if base.arr.sort().range() == specs.CSeq else (lambda r: r)
             if getattr(self, 'in_spec', False):
                 # in contract expressions list indices are plain (non-negative) positions: no python wrap-around
-                return sel(base.arr, toz(idx))
-            return sel(base.arr, self.norm_index(idx, base.length, e))
+                return wrap(sel(base.arr, toz(idx)))
+            return wrap(sel(base.arr, self.norm_index(idx, base.length, e)))
         if isinstance(base, (VSeq, VMList)):
             t = base.term
             if t.sort() == specs.ISeq:
@@ -1682,6 +1745,18 @@ class Engine:
         if len(e.generators) != 1 or e.generators[0].ifs:
             raise Unsupported('comprehension shape')
         g = e.generators[0]
+        if isinstance(g.iter, ast.Call) and len(g.iter.args) == 1 and isinstance(g.iter.args[0], ast.Starred) and not g.iter.keywords \
+                and isinstance(g.target, ast.Name):
+            fn = self.eval(g.iter.func, env)
+            dom = self.eval(g.iter.args[0].value, env)
+            isprod = isinstance(fn, tuple) and fn[0] == 'global' and (
+                self.modinfo['imports'].get(fn[1]) == ('itertools', 'product') or
+                (fn[1] == 'itertools.product' and self.modinfo['imports'].get('itertools') == ('itertools', None)))
+            if isprod and isinstance(dom, VDom) and self.is_flatten(e.elt, g.target.id):
+                # (tuple([lit for c in ct for lit in c]) for ct in product(*[T[l] for l in clause])): the distribution of
+                # the CNFs T[l] over the clause - one output clause per choice of one clause from every T[l]
+                return VSeq(specs.cdist_tab(dom.arr, dom.length, dom.clause))
+            raise Unsupported('comprehension over a starred call')
         if isinstance(g.iter, ast.Call) and isinstance(g.iter.func, ast.Name) and g.iter.func.id == 'zip' and len(g.iter.args) == 2 \
                 and isinstance(g.target, ast.Tuple) and len(g.target.elts) == 2 and 'zip' not in env:
             x, y = [t.id for t in g.target.elts]
@@ -1746,6 +1821,8 @@ class Engine:
                 if not getattr(self, 'in_spec', False):
                     self.oblige('hazard', 'table indices in bounds: {}'.format(ast.unparse(e)),
                                 specs.maxabs(it.term) < toz(table.length), e.lineno)
+                if table.arr.sort().range() == specs.CSeq:
+                    return VDom(table.arr, toz(table.length), it.term)
                 return VSeq(specs.imapsub(it.term, table.arr, toz(table.length)))
         if isinstance(it, VStrs) and isinstance(g.target, ast.Name):
             # [f(tok) for tok in tokens]: one value per token; f may be demonic (int()) and may raise for some token
@@ -1788,6 +1865,20 @@ class Engine:
             if src == g.target.id:
                 return it
         raise Unsupported('comprehension over {!r} (line {})'.format(it, e.lineno))
+
+    @staticmethod
+    def is_flatten(elt, outer):
+        """tuple([x for c in OUTER for x in c])  or  [x for c in OUTER for x in c]"""
+        if isinstance(elt, ast.Call) and isinstance(elt.func, ast.Name) and elt.func.id in ('tuple', 'list') and len(elt.args) == 1 \
+                and not elt.keywords:
+            elt = elt.args[0]
+        if not isinstance(elt, (ast.ListComp, ast.GeneratorExp)) or len(elt.generators) != 2:
+            return False
+        g1, g2 = elt.generators
+        return (not g1.ifs and not g2.ifs and isinstance(g1.target, ast.Name) and isinstance(g2.target, ast.Name)
+                and isinstance(g1.iter, ast.Name) and g1.iter.id == outer
+                and isinstance(g2.iter, ast.Name) and g2.iter.id == g1.target.id
+                and isinstance(elt.elt, ast.Name) and elt.elt.id == g2.target.id)
 
     def ev_ListComp_concrete(self, e, env, xs):
         g = e.generators[0]
@@ -1846,6 +1937,10 @@ class Engine:
         kw = {k.arg: self.eval(k.value, env) for k in e.keywords}
         if isinstance(f, VClosure):
             return self.call_inline(f.node, f.env, args, kw, f.modinfo, None, e)
+        if isinstance(f, VGadFn):
+            if len(args) != 1 or kw or not (isinstance(args[0], int) or (is_z3(args[0]) and z3.is_int(args[0]))):
+                raise Unsupported('gadget function called with other than one int')
+            return VSeq(specs.gad(f.sid, toz(args[0])))
         if isinstance(f, VObj):
             return self.call_method(f, '__call__', args, kw, e)
         if isinstance(f, VClass):
@@ -1968,6 +2063,10 @@ class Engine:
         if c.get('assumed') or c.get('trusted'):
             self.used_assumed.add(key)          # reported in the evidence: this proof relies on an unverified contract
         for pn, ty in c.get('params', {}).items():
+            if ty == 'fn:gad' and isinstance(env.get(pn), VClosure):
+                env[pn] = self.closure_to_gad(env[pn], node)
+            if ty == 'fn:gad' and not isinstance(env.get(pn), VGadFn):
+                raise Unsupported('function argument without a gadget contract')
             if ty == 'iseq' and isinstance(env.get(pn), VTuple):
                 env[pn] = VSeq(_term(env[pn]))
             if ty == 'iseq' and isinstance(env.get(pn), VArr):
@@ -2023,6 +2122,52 @@ class Engine:
                 continue
             self.assume(toz(self.spec_eval(ens, post_env)))
         return res
+
+    def closure_to_gad(self, f, node):
+        """a nested function with a (separately verified) gadget contract is passed as a function value: from here on it is
+        the pure map l -> gad(sid, l); its contract is assumed for EVERY literal (the closure's own verification discharges
+        it), the requirements on its free variables are obligations here"""
+        top = self.frames[0]
+        key = (top['rel'], '{}.{}'.format(top['qual'], f.node.name))
+        cc = self.contracts.get(key)
+        if cc is None or isinstance(f.node, ast.Lambda):
+            raise Unsupported('function value {} has no contract'.format(getattr(f.node, 'name', '<lambda>')))
+        if list(cc.get('params', {})) != [f.node.args.args[0].arg] or len(f.node.args.args) != 1 or cc.get('raises'):
+            raise Unsupported('gadget contract shape')
+        sid = self.fresh('gadid_' + f.node.name)
+        self.gadids = getattr(self, 'gadids', {})
+        self.gadids[f.node.name] = sid
+        pname = f.node.args.args[0].arg
+        env = {}
+        for nme in cc.get('closure_vars', {}):
+            if nme not in f.env:
+                raise Unsupported('free variable {} of {} is not bound'.format(nme, f.node.name))
+            env[nme] = f.env[nme]
+        a_names = [n for n, t in cc.get('ghost_params', {}).items() if t == 'asg']
+        top_a = [top['old'][n] for n, t in top['contract'].get('ghost_params', {}).items() if t == 'asg']
+        for n in a_names:
+            env[n] = top_a[0] if top_a else self.fresh_of_type(n, 'asg')
+        self.qcount = getattr(self, 'qcount', 0) + 1
+        L = z3.Int('q!lit!{}'.format(self.qcount))
+        free_req, lit_req = [], []
+        for r in cc.get('requires', []):
+            (lit_req if pname in {x.id for x in ast.walk(ast.parse(r)) if isinstance(x, ast.Name)} else free_req).append(r)
+        for r in free_req:
+            self.oblige('pre', 'function value {} requires [{}]'.format(f.node.name, r), self.spec_eval(r, env), node.lineno)
+        for sign in (1, -1):
+            e2 = dict(env)
+            e2[pname] = L * sign
+            e2['result'] = VSeq(specs.gad(sid, L * sign))
+            req = zand(*[toz(self.spec_eval(r, e2)) for r in lit_req]) if lit_req else z3.BoolVal(True)
+            ens = zand(*[toz(self.spec_eval(t, e2)) for t in cc.get('ensures', [])])
+            # instantiated (at L and at -L) wherever a term gad(sid, L) occurs
+            self.pc.append(z3.ForAll([L], z3.Implies(req, ens), patterns=[specs.gad(sid, L)]))
+        for a in ([top_a[0]] if top_a else []):
+            b = specs.aind(a, sid)
+            self.pc.append(z3.ForAll([L], z3.Implies(L > 0, specs.lit_true(b, L) == specs.sat(a, specs.gad(sid, L))),
+                                     patterns=[specs.lit_true(b, L)]))
+        self.used_assumed.add(key) if cc.get('assumed') else None
+        return VGadFn(sid)
 
     def definitional(self, text, env, targets):
         """`X == expr` with X a just-havoced field/variable not occurring in expr: assign instead of assume
@@ -2162,6 +2307,8 @@ POW2 = specs.pow2
 def _term(v):
     if isinstance(v, (VSeq, VMList, VTerms)):
         return v.term
+    if isinstance(v, VGadFn):
+        return v.sid
     if isinstance(v, VCon):
         return v.as_z3()
     if isinstance(v, str):
@@ -2288,7 +2435,7 @@ def sf_forall_int(eng, node, env):
         for a, v in zip(pl.args.args, vs):
             e3[a.arg] = v
         pats = pl.body.elts if isinstance(pl.body, ast.Tuple) else [pl.body]
-        terms = [toz(eng.eval(pt, e3)) for pt in pats]
+        terms = [toz(_term(eng.eval(pt, e3))) for pt in pats]
         if not all(any(_mentions(t, v) for t in terms) for v in vs) or any(specs._has_ite(t) for t in terms):
             return z3.ForAll(vs, toz(body))
         try:
@@ -2312,13 +2459,23 @@ def _wrap(fn, ret=None):
     return f
 
 
+def sf_gadid(eng, node, name):
+    ids = getattr(eng, 'gadids', {})
+    if name not in ids:
+        raise SpecError('no function value named ' + str(name))
+    return ids[name]
+
+
 SPEC_FUNCS = {
+    'aind': _wrap(specs.aind), 'gadid': sf_gadid,
+    'gad': _wrap(specs.gad), 'cdist': _wrap(specs.cdist), 'cdistall': _wrap(specs.cdistall), 'cind': _wrap(specs.cind),
+    'satind': _wrap(specs.satind),
     'old': sf_old, 'implies': sf_implies, 'forall': sf_forall_int, 'created': sf_created, 'final': sf_final,
     'firsts': lambda eng, node, p: VArr(p.length, p.first),
     'imapsub': lambda eng, node, sq, A, n: VSeq(specs.imapsub(_term(sq), as_arr(A).arr, toz(n))),
     'isperm': lambda eng, node, A, n, base: specs.isperm(as_arr(A).arr, toz(n), toz(base)),
     'lam2': sf_lam2, 'card2': lambda eng, node, st: specs.card2(st.arr),
-    'mvar': _wrap(specs.mvar), 'gorder': _wrap(specs.gorder), 'gnedges': _wrap(specs.gnedges),
+    'mvar': _wrap(specs.mvar), 'gorder': _wrap(specs.gorder), 'gnedges': _wrap(specs.gnedges), 'navail_p': _wrap(specs.navail_p),
     'gedge1': _wrap(specs.gedge1), 'gedge2': _wrap(specs.gedge2),
     'edgepairs': lambda eng, node, g: _edgepairs(toz(g)),
     'gdom': _wrap(specs.gdom), 'grng': _wrap(specs.grng), 'rowlits': _wrap(specs.rowlits), 'collits': _wrap(specs.collits),
@@ -2443,6 +2600,8 @@ b_allany_raw.raw = True
 def b_list(eng, node, v=None):
     if v is None:
         return VTuple([], 'list')
+    if isinstance(v, VDom):
+        return v
     if isinstance(v, VTuple):
         return VTuple(list(v.items), 'list')
     if isinstance(v, VSeq):
